@@ -30,7 +30,7 @@ static void *wd_fn(void *a) {
 typedef struct { unsigned prod, seq; } Item;
 static PMutex *mu; static PCondVariable *cv_ne, *cv_nf;
 static Item ring[8]; static int cap, head, cnt; static long long consumed_total, target; static int inside;      /* all protected by mu */
-static int use_bcast; static int P_, C_; static long long N_;
+static int use_bcast, sig_outside; static int P_, C_; static long long N_;
 static unsigned *clog[MAXT]; static long long clog_n[MAXT];
 static long long st_waits, st_items, st_runs, st_spurious_returns;
 static long long in_bad[MAXT * 2];
@@ -45,8 +45,8 @@ static void *producer(void *a) {
 		while (cnt == cap) { leave(); __atomic_add_fetch(&st_waits, 1, __ATOMIC_RELAXED); if (!p_cond_variable_wait(cv_nf, mu)) { viol("wait-failed", "p_cond_variable_wait returned FALSE"); } enter(id); }
 		ring[(head + cnt) % cap].prod = (unsigned)id; ring[(head + cnt) % cap].seq = (unsigned)s; cnt++;
 		leave();
-		if (use_bcast) p_cond_variable_broadcast(cv_ne); else p_cond_variable_signal(cv_ne);
-		p_mutex_unlock(mu);
+		if (sig_outside) { p_mutex_unlock(mu); if (use_bcast) p_cond_variable_broadcast(cv_ne); else p_cond_variable_signal(cv_ne); }
+		else { if (use_bcast) p_cond_variable_broadcast(cv_ne); else p_cond_variable_signal(cv_ne); p_mutex_unlock(mu); }
 		__atomic_add_fetch(&progress, 1, __ATOMIC_RELAXED);
 	}
 	return NULL;
@@ -61,16 +61,15 @@ static void *consumer(void *a) {
 		it = ring[head]; head = (head + 1) % cap; cnt--; consumed_total++; fin = consumed_total == target;
 		clog[id][clog_n[id]++] = (it.prod << 24) | it.seq;
 		leave();
-		if (use_bcast) p_cond_variable_broadcast(cv_nf); else p_cond_variable_signal(cv_nf);
-		if (fin) p_cond_variable_broadcast(cv_ne);          /* release the other consumers */
-		p_mutex_unlock(mu);
+		if (sig_outside) { p_mutex_unlock(mu); if (use_bcast) p_cond_variable_broadcast(cv_nf); else p_cond_variable_signal(cv_nf); if (fin) p_cond_variable_broadcast(cv_ne); }
+		else { if (use_bcast) p_cond_variable_broadcast(cv_nf); else p_cond_variable_signal(cv_nf); if (fin) p_cond_variable_broadcast(cv_ne); p_mutex_unlock(mu); }
 		__atomic_add_fetch(&progress, 1, __ATOMIC_RELAXED);
 	}
 	return NULL;
 }
-static void run_buffer(int P, int C, long long N, int capacity, int bcast) {
+static void run_buffer(int P, int C, long long N, int capacity, int bcast, int outside) {
 	pthread_t th[MAXT * 2]; int i, n = 0; unsigned char *seen; long long k; long long bad = 0;
-	scen = bcast ? "buffer-one-condvar-broadcast" : "buffer-two-condvars-signal";
+	scen = bcast ? (outside ? "buffer-one-condvar-broadcast-outside-mutex" : "buffer-one-condvar-broadcast") : (outside ? "buffer-two-condvars-signal-outside-mutex" : "buffer-two-condvars-signal"); sig_outside = outside;
 	P_ = P; C_ = C; N_ = N; cap = capacity; head = cnt = 0; consumed_total = 0; target = (long long)P * N; use_bcast = bcast; inside = 0;
 	mu = p_mutex_new(); cv_ne = p_cond_variable_new(); cv_nf = bcast ? cv_ne : p_cond_variable_new();
 	if (!mu || !cv_ne || !cv_nf) VH_DIE("new");
@@ -114,7 +113,23 @@ static void *waiter_hold(void *a) {     /* after waking stays inside until the p
 	p_mutex_unlock(mu);
 	return NULL;
 }
-static long long st_wake_cases, st_waiters_woken;
+static long long st_wake_cases, st_waiters_woken, st_storm_rounds;
+/* several threads signal at the same instant, outside the mutex, for a single blocked consumer; every published token must be consumed */
+static int storm_tokens, storm_stop; static long long storm_consumed; static pthread_barrier_t storm_bar; static int storm_K;
+static void *storm_consumer(void *a) { (void)a; p_mutex_lock(mu); for (;;) { while (storm_tokens == 0 && !storm_stop) p_cond_variable_wait(cv_ne, mu); if (storm_tokens == 0) break; storm_tokens--; storm_consumed++; __atomic_add_fetch(&progress, 1, __ATOMIC_RELAXED); } p_mutex_unlock(mu); return NULL; }
+static void *storm_signaller(void *a) { long long rounds = (long long)(intptr_t)a, i; for (i = 0; i < rounds; i++) { pthread_barrier_wait(&storm_bar); p_mutex_lock(mu); storm_tokens++; p_mutex_unlock(mu); pthread_barrier_wait(&storm_bar); p_cond_variable_signal(cv_ne); pthread_barrier_wait(&storm_bar); { int t; for (t = 0; t < 2000000; t++) { int left; p_mutex_lock(mu); left = storm_tokens; p_mutex_unlock(mu); if (!left) break; if (t > 1000) usleep(10); } } } return NULL; }
+static void run_storm(int K, long long rounds) {
+	pthread_t c, th[16]; int i;
+	scen = "concurrent-signals-outside-mutex";
+	mu = p_mutex_new(); cv_ne = p_cond_variable_new(); storm_tokens = 0; storm_stop = 0; storm_consumed = 0; storm_K = K;
+	pthread_barrier_init(&storm_bar, NULL, (unsigned)K);
+	pthread_create(&c, NULL, storm_consumer, NULL);
+	for (i = 0; i < K; i++) pthread_create(&th[i], NULL, storm_signaller, (void *)(intptr_t)rounds);
+	for (i = 0; i < K; i++) pthread_join(th[i], NULL);
+	p_mutex_lock(mu); storm_stop = 1; p_cond_variable_broadcast(cv_ne); p_mutex_unlock(mu); pthread_join(c, NULL);
+	if (storm_consumed != (long long)K * rounds) viol("signal-lost", "%lld of %lld tokens consumed after concurrent signals", storm_consumed, (long long)K * rounds);
+	st_storm_rounds += rounds; pthread_barrier_destroy(&storm_bar); p_cond_variable_free(cv_ne); p_mutex_free(mu);
+}
 static void wait_registered(int W) { for (;;) { int r; p_mutex_lock(mu); r = registered; p_mutex_unlock(mu); if (r == W) return; sched_yield(); } }
 static int wait_arrivals(int want, int ms) { int t; for (t = 0; t < ms * 10; t++) { if (__atomic_load_n(&arrived, __ATOMIC_SEQ_CST) >= want) return 1; usleep(100); } return __atomic_load_n(&arrived, __ATOMIC_SEQ_CST) >= want; }
 
@@ -157,12 +172,13 @@ int main(int argc, char **argv) {
 	p_libsys_init();
 	pthread_create(&wd, NULL, wd_fn, NULL);
 	for (i = 0; i < wakes && vh_nviol < vh_max_viol; i++) { int W = 1 + (int)vh_below(&r, (uint64_t)maxw); run_wake(W, (int)(i % 3)); }
+	for (i = 0; i < 4 && vh_nviol < vh_max_viol; i++) run_storm(2 + (int)vh_below(&r, 5), wakes * 2);
 	for (i = 0; i < runs && vh_nviol < vh_max_viol; i++) {
 		int P = 1 + (int)vh_below(&r, (uint64_t)maxt / 2 + 1), C = 1 + (int)vh_below(&r, (uint64_t)maxt / 2 + 1), capc = 1 + (int)vh_below(&r, 4);
-		run_buffer(P, C, items / P + 1, capc, (int)(i & 1));
+		run_buffer(P, C, items / P + 1, capc, (int)(i & 1), (int)((i >> 1) & 1));
 	}
 	p_libsys_shutdown();
-	printf("{\"ev\":\"stats\",\"buffer_runs\":%lld,\"items\":%lld,\"waits\":%lld,\"returns_with_false_predicate\":%lld,\"wake_cases\":%lld,\"waiters_woken\":%lld,\"viol\":%d,\"wall\":%.2f}\n",
-	       st_runs, st_items, st_waits, st_spurious_returns, st_wake_cases, st_waiters_woken, vh_nviol, vh_now() - t0);
+	printf("{\"ev\":\"stats\",\"buffer_runs\":%lld,\"items\":%lld,\"waits\":%lld,\"returns_with_false_predicate\":%lld,\"wake_cases\":%lld,\"concurrent_signal_rounds\":%lld,\"waiters_woken\":%lld,\"viol\":%d,\"wall\":%.2f}\n",
+	       st_runs, st_items, st_waits, st_spurious_returns, st_wake_cases, st_storm_rounds, st_waiters_woken, vh_nviol, vh_now() - t0);
 	return 0;
 }
